@@ -513,7 +513,7 @@ def standard_host_keys(key_algs, rsa_bits=3072, ca='ed25519', ca_bits=3072, cert
             out[a] = wire.ed25519_blob_tree()
         elif a == 'ssh-ed448':
             out[a] = wire.ed448_blob_tree()
-        elif a.startswith('ecdsa-sha2-nistp') and '-cert-' not in a:
+        elif a in ('ecdsa-sha2-nistp256', 'ecdsa-sha2-nistp384', 'ecdsa-sha2-nistp521'):
             out[a] = wire.ecdsa_blob_tree(int(a[len('ecdsa-sha2-nistp'):]))
         elif a == 'ssh-dss':
             out[a] = wire.dss_blob_tree()
